@@ -778,6 +778,12 @@ func (s *State) GetReverseStateDiff(
 			value := felt.Zero
 			if blockNumber > 0 {
 				oldValue, err := s.ContractStorageAt(&addr, &key, blockNumber-1)
+				if errors.Is(err, ErrCheckHeadState) {
+					// Nothing was logged for this slot at blockNumber: the block did not
+					// change it (e.g. it wrote zero to a slot that was never written), so
+					// the previous value is the one at the head.
+					oldValue, err = s.ContractStorage(&addr, &key)
+				}
 				if err != nil {
 					return core.StateDiff{}, err
 				}
